@@ -349,7 +349,7 @@ def r06e(model: Model, rr: RuleResult):
                            construct=f"{mname}.{fi.qualname}: GradientReuseKey without {miss}")
                     continue
                 targ = c.args[1] if len(c.args) > 1 else kwarg(c, "transform")
-                if "transform" in fi.params and "transform" not in param_closure(cfg, cfg.node_for(c), targ) and norm(targ) != "Affine2D.identity()":
+                if "transform" in fi.params and "transform" not in param_closure(cfg, cfg.node_for(c), targ):
                     rr.bad(fi, c, f"the key's transform {short(targ)} does not derive from the transform being applied", construct=f"{mname}.{fi.qualname}: GradientReuseKey transform")
                 else:
                     rr.ok(f"{mname}.{fi.qualname}: {short(c)} keys on the paint and the residual transform")
